@@ -17,6 +17,14 @@ RtBad(r) ==
       judged == dt.s.m = "end" /\ ~dt.inf
       ds == Den(r.s)
   IN IF ~judged THEN {}
+     ELSE IF r.sorted THEN
+       \* sort_keys build: members of every object in ascending key order (stable), nothing else changes
+       {c \in {"s-wellformed", "t-denotes", "s-denotes", "sorted", "fixpoint"} :
+        \/ (c = "s-wellformed" /\ ~WellFormedCompact(r.s))
+        \/ (c = "t-denotes" /\ ~ValMatches(dt.root, r.dump))
+        \/ (c = "s-denotes" /\ ds.s.m = "end" /\ ~ValMatches(ds.root, r.dump_s))
+        \/ (c = "sorted" /\ r.dump_s # SortDump(r.dump))
+        \/ (c = "fixpoint" /\ r.s2 # r.s)}
      ELSE {c \in {"s-wellformed", "s-denotes", "t-denotes", "fixpoint", "display", "vec", "pretty", "rawnum"} :
         \/ (c = "s-wellformed" /\ ~WellFormedCompact(r.s))
         \/ (c = "t-denotes" /\ ~ValMatches(dt.root, r.dump))                    \* the DOM is the denotation of t (order, duplicates, exact numbers)
